@@ -1,4 +1,5 @@
 import ProductMD.Model.Checksum
+import ProductMD.Proofs.HashMD
 /-! Helper lemmas for C16: the read loop, `splitOn`, `normpath` on relative paths, the checksum table. -/
 namespace PM
 namespace Checksum
@@ -34,6 +35,59 @@ theorem readLoop_state {H : Type} (upd : H → Bytes → H)
         simp only [List.length_drop]; omega
       simp only [Bool.false_eq_true, if_false]
       rw [ih _ _ hlen, law, List.take_append_drop]
+
+/-- the same with the unit law only on an invariant `P` that every `upd` establishes (hash objects whose pending
+buffer is shorter than a block) -/
+theorem readLoop_state_inv {H : Type} (upd : H → Bytes → H) (P : H → Prop) (hP : ∀ h a, P (upd h a))
+    (law : ∀ h a b, upd (upd h a) b = upd h (a ++ b)) (unit : ∀ h, P h → upd h [] = h)
+    (n : Nat) (hn : 0 < n) :
+    ∀ (fuel : Nat) (h : H) (rest : Bytes), P h → rest.length < fuel → (readLoop upd n fuel h rest).1 = upd h rest := by
+  intro fuel
+  induction fuel with
+  | zero => intro h rest _ hl; omega
+  | succ f ih =>
+    intro h rest hp hl
+    simp only [readLoop]
+    by_cases hc : (rest.take n).isEmpty = true
+    · simp only [hc, if_true]
+      have : rest = [] := by
+        cases rest with
+        | nil => rfl
+        | cons a t =>
+          cases n with
+          | zero => omega
+          | succ m => simp at hc
+      subst this
+      exact (unit h hp).symm
+    · simp only [hc]
+      have hne : rest ≠ [] := by
+        intro h0; subst h0; simp at hc
+      have hlen : (rest.drop n).length < f := by
+        have : 0 < rest.length := List.length_pos_iff.mpr hne
+        simp only [List.length_drop]; omega
+      simp only [Bool.false_eq_true, if_false]
+      rw [ih _ _ (hP _ _) hlen, law, List.take_append_drop]
+
+/-- the pieces a caller cuts a message into are the message -/
+theorem cutChunks_flatten : ∀ (sizes : List Nat) (content : Bytes), (cutChunks sizes content).flatten = content := by
+  intro sizes
+  induction sizes with
+  | nil => intro content; simp [cutChunks]
+  | cons k ks ih => intro content; simp [cutChunks, ih]
+
+/-- hex digits are lower case: `.lower()` on a hex digest is the identity -/
+theorem lowerAscii_hexDigit (n : Nat) : Str.lowerAscii [HashMD.hexDigit n] = [HashMD.hexDigit n] := by
+  rcases n with _|_|_|_|_|_|_|_|_|_|_|_|_|_|_|_|n <;> first | decide | rfl
+
+theorem lowerAscii_hexOfBytes : ∀ (b : Bytes), Str.lowerAscii (HashMD.hexOfBytes b) = HashMD.hexOfBytes b := by
+  intro b
+  induction b with
+  | nil => rfl
+  | cons x rest ih =>
+    have h1 := lowerAscii_hexDigit (x.toNat / 16)
+    have h2 := lowerAscii_hexDigit (x.toNat % 16)
+    simp only [Str.lowerAscii, List.map_cons, List.map_nil, List.cons.injEq, and_true] at h1 h2 ih ⊢
+    simp only [HashMD.hexOfBytes, List.map_cons, h1, h2, ih]
 
 /-- every read returns at most `n` bytes, only the last one returns nothing, and together they return the file -/
 theorem readLoop_trace {H : Type} (upd : H → Bytes → H) (n : Nat) (hn : 0 < n) :
